@@ -194,7 +194,8 @@ fn gen_tl(rng: &mut Rng, allow_default_body: bool, need_keyframe: bool) -> Tl {
                     fields.push((f, value_lit(rng, f)));
                 }
             }
-            if fields.is_empty() {
+            // an empty block `{}` is a keyframe that defines nothing (10% of the empty cases)
+            if fields.is_empty() && !rng.chance(0.1) {
                 let f = rng.usize_below(3);
                 fields.push((f, value_lit(rng, f)));
             }
@@ -277,6 +278,7 @@ fn render_tl_macro(tl: &Tl) -> String {
                 };
                 let body = match &kf.body {
                     Body::Default => "default".to_string(),
+                    Body::Fields(fs) if fs.is_empty() => "{}".to_string(),
                     Body::Fields(fs) => format!(
                         "{{ {} }}",
                         fs.iter()
